@@ -576,7 +576,7 @@ func driveClient(run *sessionRun, pipelined bool, T time.Duration, r *rand.Rand)
 				full := encodeReq(k, &sReq{maj: 1, min: 4, bc: 1, writeOk: true, items: []sItem{{op: opActivate, payload: 0}}})
 				_, _ = c.Write(full[:len(full)-5])
 				closeAtEnd = true
-			case "extra-item", "bad-type", "bad-tag", "mutated", "hostile-length", "cred-type", "cut-tail", "any-tag", "bad-bool":
+			case "extra-item", "bad-type", "bad-tag", "mutated", "hostile-length", "cred-type", "cut-tail", "any-tag", "bad-bool", "short-attr":
 				_, _ = c.Write(malformedRequest(k, a.how))
 				if a.how == "hostile-length" {
 					closeAtEnd = true // the announced bytes never come: the peer leaves (otherwise a server without ReadTimeout rightly waits)
@@ -810,7 +810,7 @@ func genScript(r *rand.Rand, common sCfg, saConfigured bool, o scriptOpts) (sCfg
 			}
 			arrs = append(arrs, sArr{kind: 'R', req: q})
 		case x < 88 || (last && x < 50):
-			how := []string{"garbage", "wrongtype", "truncated-close", "extra-item", "bad-type", "bad-tag", "mutated", "hostile-length", "cred-type", "cut-tail", "cred-type", "cut-tail", "any-tag", "any-tag", "bad-bool", "bad-bool"}[r.Intn(16)]
+			how := []string{"garbage", "wrongtype", "truncated-close", "extra-item", "bad-type", "bad-tag", "mutated", "hostile-length", "cred-type", "cut-tail", "cred-type", "cut-tail", "any-tag", "any-tag", "bad-bool", "bad-bool", "short-attr", "short-attr"}[r.Intn(18)]
 			if o.allowStall && cfg.rt && r.Intn(3) == 0 {
 				how = "stall"
 			}
@@ -837,6 +837,39 @@ func malformedRequest(k int, how string) []byte {
 	setLen := func(b []byte, off int, l uint32) { binary.BigEndian.PutUint32(b[off+4:], l) }
 	extra := []byte{0x42, 0x00, 0x6a, 0x02, 0, 0, 0, 4, 0, 0, 0, 7, 0, 0, 0, 0}
 	switch how {
+	case "short-attr":
+		// a Locate request with an attribute whose NAME is empty, one byte long, or absent altogether, and which does carry an
+		// Attribute Value: no attribute the library knows, so the value cannot be typed - an undecodable message like any other
+		var rb bytes.Buffer
+		rq := kmip.Request{Header: kmip.RequestHeader{Version: kmip.ProtocolVersion{Major: 1, Minor: 4}, BatchCount: 1},
+			BatchItems: []kmip.RequestBatchItem{{Operation: kmip.OPERATION_LOCATE, RequestPayload: kmip.LocateRequest{Attributes: kmip.Attributes{{Name: kmip.ATTRIBUTE_NAME_CRYPTOGRAPHIC_LENGTH, Value: int32(128)}}}}}}
+		if err := kmip.NewEncoder(&rb).Encode(&rq); err != nil {
+			panic("harness: cannot encode short-attr base request: " + err.Error())
+		}
+		b := rb.Bytes()
+		for _, n := range mut.All(mut.Parse(b)) {
+			if n.Tag != 0x42000a {
+				continue
+			}
+			var item []byte
+			switch k % 4 {
+			case 0:
+				item = []byte{0x42, 0x00, 0x0a, 7, 0, 0, 0, 1, 'z', 0, 0, 0, 0, 0, 0, 0}
+			case 1:
+				item = []byte{0x42, 0x00, 0x0a, 7, 0, 0, 0, 0}
+			case 2:
+				item = nil // no Attribute Name at all
+			default:
+				item = []byte{0x42, 0x00, 0x0a, 7, 0, 0, 0, 1, 'x', 0, 0, 0, 0, 0, 0, 0}
+			}
+			m := append(append(append([]byte(nil), b[:n.Off]...), item...), b[n.End:]...)
+			delta := len(item) - (n.End - n.Off)
+			for p := n.Parent; p != nil; p = p.Parent {
+				binary.BigEndian.PutUint32(m[p.Off+4:], uint32(int(binary.BigEndian.Uint32(m[p.Off+4:]))+delta))
+			}
+			return m
+		}
+		return b[:len(b)-8]
 	case "bad-bool":
 		// an otherwise valid request with a Boolean (Batch Order Option / Asynchronous Indicator) whose eight value bytes are
 		// neither 0 nor 1 as a whole, although their low half is: the Integer layout of 1, a set top bit, garbage in front of 01
